@@ -15,7 +15,7 @@ import ast
 
 from sa.astutil import dump, where, kwargs_of, walk_no_nested
 from sa.model import body_nodoc
-from sa.vn import VN, Poly, VNUnknown, comparable
+from sa.vn import path_values, RAISES, VN, Poly, VNUnknown, comparable
 from rules import c05
 
 UTIL = "pybrops.model.vmat.util"
@@ -36,70 +36,67 @@ FAMILIES = [("pybrops.model.vmat.", ["DenseTwoWayDHAdditiveGeneticVarianceMatrix
                                          "DenseFourWayDHAdditiveProgenyGenicCovarianceMatrix", "DenseDihybridDHAdditiveProgenyGenicCovarianceMatrix"])]
 
 
+FINITE_TRUE = {("k < numpy.inf", True), ("k != numpy.inf", True), ("numpy.isfinite(k)", True), ("k == numpy.inf", False), ("numpy.isinf(k)", False), ("k >= numpy.inf", False)}
+FINITE_FALSE = {(t, not b) for t, b in FINITE_TRUE}
+
+
 def check_linkage(prog, rep):
+    """every return path of the linkage-decay helpers, classified by the branch conditions it passed, normalises to the closed form of that case"""
     for name, table in LINK.items():
         f = prog.func(UTIL, name)
         rep.saw(f)
         construct = f.qualname
-        body = body_nodoc(f.node)
-        if name == "rprob_filial":
-            try:
-                vn = VN(prog, f)
-                fin = None
-                for st in body:
-                    if isinstance(st, ast.If):
-                        sub = VN(prog, f, env=dict(vn.env))
-                        for s in st.body:
-                            sub.stmt(s)
-                        fin = sub
-                        cond = dump(st.test)
-                        continue
-                    if isinstance(st, ast.Return):
-                        inf = vn.expr(st.value)
-                        finv = fin.expr(st.value) if fin is not None else None
-                        break
-                    vn.stmt(st)
-                refs = {k: VN(prog, f).expr(ast.parse(v, mode="eval").body) for k, v in table}
-                for tag, got in (("finite", finv), ("inf", inf)):
-                    if got is None:
-                        rep.unrec("R1-linkage", construct, "%s branch not found" % tag)
-                    elif got == refs[tag]:
-                        rep.ok("R1-linkage", construct + "#" + tag, "r_k (%s) == %s" % (tag, dict(table)[tag]))
-                    elif comparable(got, refs[tag]):
-                        rep.violate("R1-linkage", construct, "recombination after k generations (%s k) normalises to %s; closed form %s" % (tag, got.show()[:140], refs[tag].show()[:140]),
-                                    where(f), dict(table)[tag], got.show()[:140])
-                    else:
-                        rep.unrec("R1-linkage", construct, "other operators in the %s branch" % tag)
-                if fin is not None and cond not in ("k < numpy.inf", "k != numpy.inf", "numpy.isfinite(k)"):
-                    rep.unrec("R1-linkage", construct, "finite-generation guard %s not modelled" % cond)
-            except VNUnknown as e:
-                rep.unrec("R1-linkage", construct, str(e))
+        try:
+            paths = path_values(prog, f, inline=2)
+        except VNUnknown as e:
+            rep.unrec("R1-linkage", construct, "body not if / assignment / return: %s" % e)
             continue
-        node = body[0] if body and isinstance(body[0], ast.If) else None
         want = dict(table)
+        refs = {k: VN(prog, f, inline=2).expr(ast.parse(v, mode="eval").body) for k, v in table}
         seen = set()
-        while node is not None:
-            t = dump(node.test)
-            if t in want:
-                try:
-                    got = VN(prog, f).run(node.body)
-                    ref = VN(prog, f).expr(ast.parse(want[t], mode="eval").body)
-                    seen.add(t)
-                    if got == ref:
-                        rep.ok("R1-linkage", "%s#%s" % (construct, t), "%s [%s] == %s" % (name, t, want[t]))
-                    elif got is not None and comparable(got, ref):
-                        rep.violate("R1-linkage", construct, "%s for `%s` normalises to %s; closed form %s" % (name, t, got.show()[:140], ref.show()[:140]), where(f, node),
-                                    want[t], got.show()[:140])
-                    else:
-                        rep.unrec("R1-linkage", construct, "branch `%s` uses other operators" % t)
-                except VNUnknown as e:
-                    rep.unrec("R1-linkage", construct, "branch `%s`: %s" % (t, e))
+        for conds, val in paths:
+            if val is RAISES:
+                continue
+            cs = set(conds)
+            if name == "rprob_filial":
+                keys = [k for k, grp in (("finite", FINITE_TRUE), ("inf", FINITE_FALSE)) if cs & grp]
             else:
-                rep.unrec("R1-linkage", construct, "branch condition `%s` not in the table" % t)
-            node = node.orelse[0] if len(node.orelse) == 1 and isinstance(node.orelse[0], ast.If) else None
-        for t in want:
-            if t not in seen:
-                rep.unrec("R1-linkage", construct, "branch `%s` not found" % t)
+                keys = [k for k in want if (k, True) in cs]
+                # the combined key `a and b` is also satisfied by both conjuncts taken separately
+                for k in want:
+                    if " and " in k and all((c.strip(), True) in cs for c in k.split(" and ")) and k not in keys:
+                        keys.append(k)
+                # a more specific key wins over its own conjuncts
+                keys = [k for k in keys if not any(k2 != k and " and " in k2 and k in [c.strip() for c in k2.split(" and ")] for k2 in keys)]
+            if name == "rprob_filial" and not keys:
+                if ("k > numpy.inf", True) in cs or ("k < -numpy.inf", True) in cs:
+                    continue        # unreachable: nothing exceeds +inf
+                if all(c.startswith("k >") or c.startswith("k <") for c, b in conds) or not conds:
+                    # the path is taken for finite AND infinite k: it has to be right for both
+                    for k in ("finite", "inf"):
+                        seen.add(k)
+                        if val is not None and val != refs[k] and comparable(val, refs[k]):
+                            rep.violate("R1-linkage", construct, "a path that is taken for every k (conditions %s) returns %s, which is not the %s-generation closed form %s"
+                                        % ([(c, b) for c, b in conds], val.show()[:100], k, refs[k].show()[:100]), where(f), want[k], val.show()[:100])
+                    continue
+            if val is None:
+                rep.unrec("R1-linkage", construct, "a path (%s) falls off the end without a value" % [c for c, b in conds if b][:3])
+                continue
+            if len(keys) != 1:
+                rep.unrec("R1-linkage", construct, "a return path with conditions %s matches %s of the cases %s" % ([(c, b) for c, b in conds][:4], keys or "none", sorted(want)))
+                continue
+            k = keys[0]
+            seen.add(k)
+            if val == refs[k]:
+                rep.ok("R1-linkage", "%s#%s" % (construct, k), "%s [%s] == %s" % (name, k, want[k]))
+            elif comparable(val, refs[k]):
+                rep.violate("R1-linkage", construct, "%s for the case `%s` normalises to %s; closed form %s" % (name, k, val.show()[:140], refs[k].show()[:140]), where(f), want[k],
+                            val.show()[:140])
+            else:
+                rep.unrec("R1-linkage", construct, "the case `%s` uses other operators: %s" % (k, val.show()[:100]))
+        for k in want:
+            if k not in seen:
+                rep.unrec("R1-linkage", construct, "no return path for the case `%s`" % k)
 
 
 def _chunk_loops(f):
